@@ -10,8 +10,10 @@
 EXTENDS Naturals, Sequences, FiniteSets, TLC, Json
 \* request classes and the set of statuses the framework may answer with
 ReqClasses == {"ok", "unknownmethod", "badmethodbytes", "spaceintarget", "noversion", "clabc", "clneg", "dupcl", "badchunk",
-               "hugeheader", "hugetarget", "bodytoolarge", "hostileheaders", "absoluteuri"}
+               "hugeheader", "hugetarget", "bodytoolarge", "hostileheaders", "hostileframing", "absoluteuri"}
 Status(r) == CASE r = "ok" -> {200} [] r = "absoluteuri" -> {200} [] r = "hostileheaders" -> {200}
+               \* values the server's own request parser looks at (Host, Transfer-Encoding, multipart boundary): it may serve, not find or reject
+               [] r = "hostileframing" -> {200, 400, 404}
                [] r = "unknownmethod" -> {501} [] r = "badmethodbytes" -> {400, 501}
                [] r = "spaceintarget" -> {400, 404}      \* RFC 9112 3: a recipient may instead split the request line at the last space
                [] r = "hugeheader" -> {431} [] r = "hugetarget" -> {431} [] r = "bodytoolarge" -> {413}
